@@ -130,6 +130,20 @@ func allocEscapes(a *ssa.Alloc) bool {
 				if depth > 0 {
 					return true
 				}
+				// a variable that the capturing closure (and closures nested in it) only reads can be
+				// changed by nobody but the enclosing function, wherever the closure value travels
+				readOnly := true
+				for i, bnd := range x.Bindings {
+					if bnd == v {
+						inner := x.Fn.(*ssa.Function)
+						if i >= len(inner.FreeVars) || closureStores(inner, inner.FreeVars[i]) != 0 {
+							readOnly = false
+						}
+					}
+				}
+				if readOnly {
+					continue
+				}
 				// closure must be tame: only called, or passed to an in-repo static callee
 				if crefs := x.Referrers(); crefs != nil {
 					for _, cr := range *crefs {
@@ -1150,4 +1164,35 @@ func (e *Enc) storeAsserts(fr *Frame, st0 *ssa.Store, v Val, st *State, rb Term)
 		o := e.ob(fr, "assert", oname, rb, f, ca.Clause.Src, st0.Pos())
 		o.Watch = append(e.paramWatch(fr), watch...)
 	}
+}
+
+// closureStores counts the stores to a captured variable inside a closure and the closures nested
+// in it (99 = the variable's address is used in a way that is not understood).
+func closureStores(f *ssa.Function, v ssa.Value) int {
+	n := 0
+	refs := v.Referrers()
+	if refs == nil {
+		return 99
+	}
+	for _, r := range *refs {
+		switch x := r.(type) {
+		case *ssa.Store:
+			if x.Addr == v {
+				n++
+			} else {
+				return 99
+			}
+		case *ssa.UnOp, *ssa.DebugRef:
+		case *ssa.MakeClosure:
+			inner := x.Fn.(*ssa.Function)
+			for i, b := range x.Bindings {
+				if b == v && i < len(inner.FreeVars) {
+					n += closureStores(inner, inner.FreeVars[i])
+				}
+			}
+		default:
+			return 99
+		}
+	}
+	return n
 }
